@@ -152,6 +152,44 @@ def main(tier):
                 if viol <= 3:
                     run.violation({'kind': 'failed-print', 'detail': msg, 'corpus_index': i, 'entry': repr(corpus[i])[:300]})
         run.coverage['failed_print_histories'] = nfail
+        # changes of the DEFAULT configuration are part of the history too: after any prints and any number of
+        # set_default_config calls, a call without settings prints what the same call with the reported
+        # settings spelled out prints - and after the defaults are put back, what it printed at the start
+        import prettyprinter as P
+        factory = dict(P.get_default_config())
+        settable = {k: x for k, x in factory.items() if k != 'indent'}     # set_default_config takes no indent
+        ndef = 0
+        try:
+            for i in r.sample(range(n), min(n, 14 if tier == 'quick' else n)):
+                v = objs[i]
+                with warnings.catch_warnings():
+                    warnings.simplefilter('ignore')
+                    start = pformat(v)
+                    msg = None
+                    for K in (dict(width=30, max_seq_len=2), dict(depth=1), dict(sort_dict_keys=True, ribbon_width=20),
+                              dict(width=200)):
+                        pformat(None)
+                        P.set_default_config(**K)
+                        a = pformat(v)
+                        b = pformat(v, **dict(factory, **K))
+                        ndef += 1
+                        prints += 3
+                        if a != b:
+                            msg = 'after set_default_config(%r) a call without settings prints\n%s\n--- with the same settings spelled out ---\n%s' % (
+                                K, a[:300], b[:300])
+                            break
+                        P.set_default_config(**settable)
+                    P.set_default_config(**settable)
+                    if msg is None and pformat(v) != start:
+                        msg = 'after the defaults were changed and put back, the value prints differently'
+                if msg:
+                    viol += 1
+                    if viol <= 6:
+                        run.violation({'kind': 'default-config-history', 'detail': msg, 'corpus_index': i,
+                                       'entry': repr(corpus[i])[:300]})
+        finally:
+            P.set_default_config(**settable)
+        run.coverage['default_config_histories'] = ndef
         # the stateless model agrees with the implementation after all that history
         cases = [('after-history', e[1], cfg) for e in corpus if e[0] == 'model' for cfg in (dict(width=30), dict(width=79, indent=2))]
         res = PC.run_cases(cases)
